@@ -158,7 +158,7 @@ example :
 
 For the elementwise index strings (`tuple(range(ndim))[::-1]`) the hypotheses of `unify_post` follow from what the model
 checks BEFORE calling `unify_chunks`: `broadcast_shapes` accepts the two shapes (`bcastOK_ewArgs`: column by column `bdim`
-admits only equal lengths or length one), the reversed ranges have no repeated symbol, and every output symbol is a key of
+allows only equal lengths or length one), the reversed ranges have no repeated symbol, and every output symbol is a key of
 `chunkss`. Only "every axis has at least one chunk" remains as a hypothesis (a dask invariant). -/
 
 theorem ew_check_redundant (ca cb : Chunks) (hca : ∀ x ∈ ca, x ≠ []) (hcb : ∀ x ∈ cb, x ≠ []) (sh : List Nat)
